@@ -152,3 +152,15 @@ Proof.
       * intros (i & f0 & Hi & H1 & H2 & H3). destruct i as [|i]; [inversion H1; subst; congruence|].
         exists i, f0. repeat split; auto; lia.
 Qed.
+
+(* ------------------------------------------------------------------------------------ *)
+(* the hashes trusted after the finalized check point *)
+From LC Require Import LatestHashes CheckPointsProofs.
+
+Lemma latest_hashes_quorum required peers chosen :
+  forall k, (k < length (fst (latest_hashes required peers chosen)))%nat ->
+    (required <= length (filter (agrees_from 0 (firstn (S k) (fst (latest_hashes required peers chosen)))) peers))%nat.
+Proof.
+  intros k. unfold latest_hashes. destruct (Nat.ltb (length peers) required); [cbn; lia|].
+  destruct (fin_loop required _ 0 peers chosen) as [written ok] eqn:R. cbn [fst]. intros Hk. eapply fin_loop_quorum; eauto.
+Qed.
